@@ -850,7 +850,18 @@ pub fn generate(seed: u64, tier: Tier, p: &Profile) -> Scenario {
             };
             if wit.is_some() && g.r.chance(1, 6) {
                 // a mistaken attempt: a vote of a script voter through the plain entry point (refused; nothing may stay behind)
-                plan.pre.push(Op::Vote { voter: voter.clone(), action: (7, 7), vote: 1, anchor: false, wit: None });
+                // (half of the time for another script voter, who never gets a proper vote afterwards)
+                let other = if g.r.chance(1, 2) && !g.native_ids.is_empty() {
+                    let o = VoterSpec::CcHot(Cred::Script(g.native_ids[0]));
+                    if o == voter {
+                        VoterSpec::DRep(Cred::Script(g.native_ids[0]))
+                    } else {
+                        o
+                    }
+                } else {
+                    voter.clone()
+                };
+                plan.pre.push(Op::Vote { voter: other, action: (7, 7), vote: 1, anchor: false, wit: None });
             }
             plan.pre.push(Op::Vote { voter, action: (g.r.below(3) as u32, g.r.below(3) as u32), vote: g.r.below(3) as u8, anchor: g.r.chance(1, 3), wit });
         }
